@@ -3,9 +3,9 @@
 From Avt Require Import Oracles.Rel Proofs.Inv Proofs.ParamDT Proofs.ParamChop.
 
 (** Unlimited scrollback: feeding s1 ++ s2 in one call, or s1 and then s2 in two calls (cut anywhere, also inside an escape sequence), from any state satisfying the invariant whose parked buffer has the current geometry, ends in states with equal parsers, equal visible screens, cursors, modes, and equal lines() - on the primary and on the alternate screen, RIS allowed. (By induction any chunking; limited scrollback: see C12_dirty_trim_irrelevant and DESIGN.md.) *)
-Theorem C12_chunks : forall v s1 s2 va oa v1 o1 vb ob, TInv (vterm v) -> parked_geom (vterm v) -> sb_limit (vterm v) = None -> feed_str v (s1 ++ s2) = Ok (va, oa) -> feed_str v s1 = Ok (v1, o1) -> feed_str v1 s2 = Ok (vb, ob) -> holds_C12 va vb = true.
+Theorem C12_chunks : forall v s1 s2 va oa v1 o1 vb ob, TInv (vterm v) -> parked_ok (vterm v) -> sb_limit (vterm v) = None -> feed_str v (s1 ++ s2) = Ok (va, oa) -> feed_str v s1 = Ok (v1, o1) -> feed_str v1 s2 = Ok (vb, ob) -> holds_C12 va vb = true.
 Proof. exact C12_chunks_holds. Qed.
-Check C12_chunks : forall v s1 s2 va oa v1 o1 vb ob, TInv (vterm v) -> parked_geom (vterm v) -> sb_limit (vterm v) = None -> feed_str v (s1 ++ s2) = Ok (va, oa) -> feed_str v s1 = Ok (v1, o1) -> feed_str v1 s2 = Ok (vb, ob) -> holds_C12 va vb = true.
+Check C12_chunks : forall v s1 s2 va oa v1 o1 vb ob, TInv (vterm v) -> parked_ok (vterm v) -> sb_limit (vterm v) = None -> feed_str v (s1 ++ s2) = Ok (va, oa) -> feed_str v s1 = Ok (v1, o1) -> feed_str v1 s2 = Ok (vb, ob) -> holds_C12 va vb = true.
 Print Assumptions C12_chunks.
 
 (** No control function reads the dirty flags or the lazy-trim flags: two terminals differing only there stay so (any scrollback limit, no invariant needed). *)
@@ -15,9 +15,9 @@ Check C12_dirty_trim_irrelevant : forall a b f a', Rdt a b -> execute a f = Ok a
 Print Assumptions C12_dirty_trim_irrelevant.
 
 (** No control function reads the rows above the view: executing on a terminal whose scrollbacks were cut by any prefixes gives the cut result (this is what makes the end-of-call trim invisible to later input, for every limit). *)
-Theorem C12_no_function_reads_scrollback : forall t f k k' t', TInv t -> parked_geom t -> k <= sb_len (buf t) -> k' <= sb_len (other t) -> execute t f = Ok t' -> exists k1 k1', execute (chop2 k k' t) f = Ok (chop2 k1 k1' t') /\ k1 <= sb_len (buf t') /\ k1' <= sb_len (other t') /\ (is_ris f = false -> kP t' k1 k1' = kP t k k').
+Theorem C12_no_function_reads_scrollback : forall t f k k' t', TInv t -> parked_ok t -> k <= sb_len (buf t) -> k' <= sb_len (other t) -> execute t f = Ok t' -> exists k1 k1', execute (chop2 k k' t) f = Ok (chop2 k1 k1' t') /\ k1 <= sb_len (buf t') /\ k1' <= sb_len (other t') /\ (is_ris f = false -> kP t' k1 k1' = kP t k k').
 Proof. exact execute_chop. Qed.
-Check C12_no_function_reads_scrollback : forall t f k k' t', TInv t -> parked_geom t -> k <= sb_len (buf t) -> k' <= sb_len (other t) -> execute t f = Ok t' -> exists k1 k1', execute (chop2 k k' t) f = Ok (chop2 k1 k1' t') /\ k1 <= sb_len (buf t') /\ k1' <= sb_len (other t') /\ (is_ris f = false -> kP t' k1 k1' = kP t k k').
+Check C12_no_function_reads_scrollback : forall t f k k' t', TInv t -> parked_ok t -> k <= sb_len (buf t) -> k' <= sb_len (other t) -> execute t f = Ok t' -> exists k1 k1', execute (chop2 k k' t) f = Ok (chop2 k1 k1' t') /\ k1 <= sb_len (buf t') /\ k1' <= sb_len (other t') /\ (is_ris f = false -> kP t' k1 k1' = kP t k k').
 Print Assumptions C12_no_function_reads_scrollback.
 
 Theorem C12_flush : forall v v' o, sb_limit (vterm v) = None -> TInv (vterm v) -> active (vterm v) = Primary -> vt_flush v = Ok (v', o) -> Rdt (vterm v) (vterm v') /\ vparser v' = vparser v /\ o_drained o = [].
